@@ -1159,4 +1159,71 @@ example : (({} : AbsState).getRow RestBridge.W.A = none) ∧
     RestBridge.addStatus (RestBridge.runFaulty [none, none, none, none] (UC.addServer [] 2 RestBridge.W.A) {} 5).2 = 202 := by
   decide
 
+/-! ### the flags of `GET /api/servers`: a characterisation (replaces the sampled `bindBool_table`) -/
+
+/-- the six spellings `strconv.ParseBool` reads as `true` -/
+def trueSpellings : List String := ["1", "t", "T", "TRUE", "true", "True"]
+
+/-- the six spellings `strconv.ParseBool` reads as `false` -/
+def falseSpellings : List String := ["0", "f", "F", "FALSE", "false", "False"]
+
+/-- **C17 (flag binding, as an iff — the claim `bindBool_table` only samples).**  For EVERY value `v` of a boolean query
+parameter of `GET /api/servers` (`none` = the parameter is absent, `some b` = its bytes after URL decoding), gin's
+`setBoolField` (modelled by `Rest.bindBool`):
+
+* binds `true` exactly when `b` is one of `1 t T TRUE true True`;
+* binds `false` exactly when the parameter is absent, or its value is EMPTY (gin's special case: `""` is replaced by
+  `"false"` before `strconv.ParseBool`), or `b` is one of `0 f F FALSE false False`;
+* fails (⇒ 400) exactly when the value is present, non-empty and none of the twelve spellings — so mixed case
+  (`tRUE`), padding (`" 1"`), `yes`/`on`/`2` are all errors.
+
+The spellings are compared as byte strings (`Bytes.ofAscii`), as Go compares them. -/
+theorem bindBool_iff (v : Option Bytes) :
+    (bindBool v = some true ↔ ∃ s ∈ trueSpellings, v = some (Bytes.ofAscii s)) ∧
+    (bindBool v = some false ↔ v = none ∨ v = some [] ∨ ∃ s ∈ falseSpellings, v = some (Bytes.ofAscii s)) ∧
+    (bindBool v = none ↔ ∃ b, v = some b ∧ b ≠ [] ∧ ∀ s ∈ trueSpellings ++ falseSpellings, b ≠ Bytes.ofAscii s) := by
+  have e1 : Bytes.ofAscii "1" = [49] := by decide
+  have e2 : Bytes.ofAscii "t" = [116] := by decide
+  have e3 : Bytes.ofAscii "T" = [84] := by decide
+  have e4 : Bytes.ofAscii "TRUE" = [84, 82, 85, 69] := by decide
+  have e5 : Bytes.ofAscii "true" = [116, 114, 117, 101] := by decide
+  have e6 : Bytes.ofAscii "True" = [84, 114, 117, 101] := by decide
+  have f1 : Bytes.ofAscii "0" = [48] := by decide
+  have f2 : Bytes.ofAscii "f" = [102] := by decide
+  have f3 : Bytes.ofAscii "F" = [70] := by decide
+  have f4 : Bytes.ofAscii "FALSE" = [70, 65, 76, 83, 69] := by decide
+  have f5 : Bytes.ofAscii "false" = [102, 97, 108, 115, 101] := by decide
+  have f6 : Bytes.ofAscii "False" = [70, 97, 108, 115, 101] := by decide
+  cases v with
+  | none => simp [bindBool, trueSpellings, falseSpellings]
+  | some b =>
+    simp only [trueSpellings, falseSpellings, List.cons_append, List.nil_append, List.mem_cons, List.not_mem_nil,
+      or_false, exists_eq_or_imp, exists_eq_left, forall_eq_or_imp, forall_eq, Option.some.injEq, reduceCtorEq,
+      false_or, exists_eq_left', e1, e2, e3, e4, e5, e6, f1, f2, f3, f4, f5, f6, bindBool, parseBool, List.isEmpty_iff]
+    by_cases h0 : b = []
+    · subst h0; simp
+    · simp only [h0, if_false, false_or, ne_eq, not_false_eq_true, true_and]
+      split
+      · rename_i h
+        refine ⟨⟨fun _ => h, fun _ => rfl⟩, ⟨fun h' => (by cases h'), fun h' => ?_⟩, ⟨fun h' => (by cases h'), fun h' => ?_⟩⟩
+        · rcases h with h | h | h | h | h | h <;> rcases h' with h' | h' | h' | h' | h' | h' <;> (rw [h] at h'; cases h')
+        · obtain ⟨a1, a2, a3, a4, a5, a6, _⟩ := h'
+          rcases h with h | h | h | h | h | h <;> contradiction
+      · rename_i h
+        split
+        · rename_i h2
+          refine ⟨⟨fun h' => (by cases h'), fun h' => absurd h' h⟩, ⟨fun _ => h2, fun _ => rfl⟩, ⟨fun h' => (by cases h'), fun h' => ?_⟩⟩
+          obtain ⟨_, _, _, _, _, _, a1, a2, a3, a4, a5, a6⟩ := h'
+          rcases h2 with h | h | h | h | h | h <;> contradiction
+        · rename_i h2
+          refine ⟨⟨fun h' => (by cases h'), fun h' => absurd h' h⟩, ⟨fun h' => (by cases h'), fun h' => absurd h' h2⟩, ⟨fun _ => ?_, fun _ => rfl⟩⟩
+          simp only [not_or] at h h2
+          exact ⟨h.1, h.2.1, h.2.2.1, h.2.2.2.1, h.2.2.2.2.1, h.2.2.2.2.2, h2.1, h2.2.1, h2.2.2.1, h2.2.2.2.1, h2.2.2.2.2.1, h2.2.2.2.2.2⟩
+
+/-- the three classes of `bindBool_iff` are inhabited, and the borderline values fall where the iff says: `"True"` binds
+`true`; absent, empty and `"F"` bind `false`; `"tRUE"`, `" 1"` and a single NUL byte are errors -/
+example : bindBool (some (Bytes.ofAscii "True")) = some true ∧ bindBool none = some false ∧ bindBool (some []) = some false ∧
+    bindBool (some (Bytes.ofAscii "F")) = some false ∧ bindBool (some (Bytes.ofAscii "tRUE")) = none ∧
+    bindBool (some (Bytes.ofAscii " 1")) = none ∧ bindBool (some [0]) = none := by decide
+
 end Swat4.C17
